@@ -9,9 +9,9 @@ const verifBoundIdxLookups = 3
 const verifBoundIdxFile = 112
 const verifBoundTail = 12
 const verifBoundManifestV4 = true
-const verifBoundIdxGarbage = 96
-var verifBoundFSModes = [5]bool{true, true, true, true, true}
-const verifBoundFSCorruptMetaOnly = false
+const verifBoundIdxGarbage = 64
+var verifBoundFSModes = [5]bool{true, true, false, true, true}
+const verifBoundFSCorruptMetaOnly = true
 const verifBoundFSCommits = 2
 const verifBoundROTail = 7
 const verifBoundArchive = 2
